@@ -358,19 +358,20 @@ Lemma step_cmd s c msg o t cs :
   lookup_conn c (conns s) = Some cs -> m_type msg = Some t ->
   step cfg s (EB (ECmd c msg o)) =
     match dispatch cfg c t msg o
-            (set_log s [LFrame c (FAck (m_id msg)) (is_clean s)]) with
+            (set_log s [LFrame c (FAck (m_id msg)) (is_clean s) (now s)]) with
     | Ok _ s' => (set_log s' [], mkObs true (rev (log s')) None [])
     | Exn (XErr k) s' =>
-        (set_log s' [], mkObs true (rev (LFrame c (FError k) (is_clean s') :: log s')) None [])
+        (set_log s' [], mkObs true (rev (LFrame c (FError k msg) (is_clean s') (now s') :: log s')) None [])
     | Exn e s' => (set_log (drop_conn c s') [], mkObs true (rev (log (drop_conn c s'))) (Some e) [])
     end.
 Proof.
   intros Hlk Ht. unfold step, step_b, has_conn. cbn [conns set_log]. rewrite Hlk.
   unfold on_message, try_catch, bind, send. rewrite Ht.
   change (is_clean (set_log s [])) with (is_clean s).
-  change (set_log (set_log s []) (LFrame c (FAck (m_id msg)) (is_clean s) :: log (set_log s [])))
-    with (set_log s [LFrame c (FAck (m_id msg)) (is_clean s)]).
-  destruct (dispatch cfg c t msg o (set_log s [LFrame c (FAck (m_id msg)) (is_clean s)]))
+  change (now (set_log s [])) with (now s).
+  change (set_log (set_log s []) (LFrame c (FAck (m_id msg)) (is_clean s) (now s) :: log (set_log s [])))
+    with (set_log s [LFrame c (FAck (m_id msg)) (is_clean s) (now s)]).
+  destruct (dispatch cfg c t msg o (set_log s [LFrame c (FAck (m_id msg)) (is_clean s) (now s)]))
     as [[] s'|e s']; [reflexivity|].
   destruct e; reflexivity.
 Qed.
@@ -395,7 +396,7 @@ Lemma handle_release_wp c a side msg n s cs :
   cmd_nameplate cs msg = Some n ->
   wp (handle_release cfg c a side msg)
      (fun _ s' => subs s' = subs s /\ chan_c s' = chan_w s' /\
-                  (exists b l, log s' = LFrame c FReleased b :: l ++ log s /\
+                  (exists b tx l, log s' = LFrame c FReleased b tx :: l ++ log s /\
                                frames_of (rev l) = []) /\
                   release_db a n side (chan_w s) (chan_w s'))
      (fun _ _ => False) s.
@@ -419,7 +420,7 @@ Proof.
   eapply wp_conseq; [exact (release_nameplate_wp a n side (now s2) s2 Hdb Hc)| |].
   - intros [] s3 (Hs & Hcc & [l [Hl Hf]] & Hrd). wp_step. cbn.
     split; [exact Hs|]. split; [exact Hcc|]. split; [|exact Hrd].
-    exists (is_clean s3), l. split; [rewrite Hl; reflexivity|exact Hf].
+    exists (is_clean s3), (now s3), l. split; [rewrite Hl; reflexivity|exact Hf].
   - intros e s3 [].
 Qed.
 
@@ -454,12 +455,12 @@ Proof.
   unfold erroneous in Herr. rewrite Ht, Hb in Herr. apply orb_false_elim in Herr.
   destruct Herr as [Hrel Hmm].
   rewrite (step_cmd s c msg o TRelease cs Hlk Ht).
-  set (s1 := set_log s [LFrame c (FAck (m_id msg)) (is_clean s)]).
+  set (s1 := set_log s [LFrame c (FAck (m_id msg)) (is_clean s) (now s)]).
   assert (Hco : conn_of s1 c = cs) by (unfold conn_of; cbn; rewrite Hlk; reflexivity).
   rewrite (dispatch_bound cfg c TRelease msg o s1 a side); try discriminate;
     [|rewrite Hco; exact Hb].
   pose proof (handle_release_wp c a side msg n s1 cs Hdb (eq_sym Hcw) Hlk Hrel Hmm Hn) as W.
-  apply wp_elim in W. destruct W as [([] & s' & E & Hs & Hcc & (b & l & Hl & Hf) & Hrd)|(e & s' & _ & [])].
+  apply wp_elim in W. destruct W as [([] & s' & E & Hs & Hcc & (b & tx & l & Hl & Hf) & Hrd)|(e & s' & _ & [])].
   rewrite E. cbn [o_exc o_log chan_w chan_c subs set_log].
   destruct Hrd as (R1 & R2 & R3 & R4 & R5).
   split; [reflexivity|]. split.
@@ -594,8 +595,8 @@ Lemma handle_claim_ok_wp c a side msg o n s cs npid mbox d1 d2 :
   claim_body (chan_w s) a n side (now s) (o_draw o) = TxOk (npid, mbox) d1 ->
   open_body d1 a mbox side (now s) = TxOk tt d2 ->
   wp (handle_claim c a side msg o)
-     (fun _ s' => exists b, s' = set_log (claimed_state (claim_conn s c cs n) d1 d2)
-                                 (LFrame c (FClaimed mbox) b ::
+     (fun _ s' => exists b tx, s' = set_log (claimed_state (claim_conn s c cs n) d1 d2)
+                                 (LFrame c (FClaimed mbox) b tx ::
                                   log (claimed_state (claim_conn s c cs n) d1 d2)))
      (fun e s' => e = XErr ErrCrowded /\ s' = claimed_state (claim_conn s c cs n) d1 d2) s.
 Proof.
@@ -606,7 +607,7 @@ Proof.
   eapply wp_conseq;
     [exact (claim_nameplate_ok_wp a n side (now (claim_conn s c cs n)) (o_draw o)
               (claim_conn s c cs n) npid mbox d1 d2 H1 H2)| |].
-  - intros m s' [-> ->]. wp_step. eexists. reflexivity.
+  - intros m s' [-> ->]. wp_step. eexists. eexists. reflexivity.
   - intros e s' [-> ->]. wp_step. split; reflexivity.
 Qed.
 
@@ -641,7 +642,7 @@ Theorem claim_outcome s c cs a side msg o n :
   let d := chan_w s in
   let d' := chan_w s' in
   chan_c s' = d' /\
-  ( (frames_of (o_log ob) = [(c, FAck (m_id msg)); (c, FError ErrReclaimed)] /\
+  ( (frames_of (o_log ob) = [(c, FAck (m_id msg)); (c, FError ErrReclaimed msg)] /\
      o_exc ob = None /\ d' = d /\ subs s' = subs s /\
      exists np r, sel_np d a n = Some np /\ sel_nps d (np_id np) side = Some r /\
                   nps_claimed r = false)
@@ -656,13 +657,13 @@ Theorem claim_outcome s c cs a side msg o n :
                 (forall np0, sel_np d a n = Some np0 -> np = np0) /\
                 holder d' a n side /\
                 (frames_of (o_log ob) = [(c, FAck (m_id msg)); (c, FClaimed (np_mbox np))] \/
-                 frames_of (o_log ob) = [(c, FAck (m_id msg)); (c, FError ErrCrowded)])) ).
+                 frames_of (o_log ob) = [(c, FAck (m_id msg)); (c, FError ErrCrowded msg)])) ).
 Proof.
   intros HS Hlog Hlk Hb Ht Herr Hn.
   destruct HS as [Hdb [Hcw Hcu] _ _ _ _].
   unfold erroneous in Herr. rewrite Ht, Hb, Hn in Herr.
   rewrite (step_cmd s c msg o TClaim cs Hlk Ht).
-  set (s1 := set_log s [LFrame c (FAck (m_id msg)) (is_clean s)]).
+  set (s1 := set_log s [LFrame c (FAck (m_id msg)) (is_clean s) (now s)]).
   assert (Hco : conn_of s1 c = cs) by (unfold conn_of; cbn; rewrite Hlk; reflexivity).
   rewrite (dispatch_bound cfg c TClaim msg o s1 a side); try discriminate;
     [|rewrite Hco; exact Hb].
@@ -677,7 +678,7 @@ Proof.
     destruct Hpost as (G & Hcl & np & Hnp & Hmbx & Hun & Hh).
     pose proof (handle_claim_ok_wp c a side msg o n s1 cs npid mbox d1 d2 Hlk Hn Herr Ecb Eob) as W.
     apply wp_elim in W.
-    destruct W as [([] & s' & E & b & ->)|(e & s' & E & -> & ->)]; rewrite E;
+    destruct W as [([] & s' & E & b & tx & ->)|(e & s' & E & -> & ->)]; rewrite E;
       cbn [o_exc o_log chan_w chan_c subs set_log claimed_state claim_conn set_conns log];
       (split; [reflexivity|]); right; right;
       (split; [reflexivity|]); (split; [exact G|]); (split; [reflexivity|]);
